@@ -678,14 +678,25 @@ class FlowIRExperimentConfiguration:
         This is version of FlowIR without any component replication
         """
         instance_file = os.path.join(self._conf_dir, 'flowir_instance.yaml')
-        with open(instance_file, 'w') as f:
-            primitive = self._unreplicated.instance(ignore_errors=True, inject_missing_fields=False,
-                                                    fill_in_all=False, is_primitive=True)
-            # primitive = experiment.model.frontends.flowir.FlowIR.compress_flowir(primitive)
-            pretty_primitive = experiment.model.frontends.flowir.FlowIR.pretty_flowir_sort(primitive)
-            experiment.model.frontends.flowir.yaml_dump(
-                pretty_primitive, f, sort_keys=False, default_flow_style=False
-            )
+        # VV: Write to a temporary file in the same directory and then atomically replace the instance file so
+        # that a crash/IO error half way through never leaves a truncated flowir_instance.yaml behind
+        temp_file = os.path.join(self._conf_dir, '.flowir_instance.yaml.%d.tmp' % os.getpid())
+        try:
+            with open(temp_file, 'w') as f:
+                primitive = self._unreplicated.instance(ignore_errors=True, inject_missing_fields=False,
+                                                        fill_in_all=False, is_primitive=True)
+                # primitive = experiment.model.frontends.flowir.FlowIR.compress_flowir(primitive)
+                pretty_primitive = experiment.model.frontends.flowir.FlowIR.pretty_flowir_sort(primitive)
+                experiment.model.frontends.flowir.yaml_dump(
+                    pretty_primitive, f, sort_keys=False, default_flow_style=False
+                )
+            os.replace(temp_file, instance_file)
+        except BaseException:
+            try:
+                os.remove(temp_file)
+            except OSError:
+                pass
+            raise
 
     @property
     def configurationDirectory(self):
